@@ -68,10 +68,11 @@ type raceScenario struct {
 	Fault   float64 `json:"fault"`
 	Cache   int     `json:"cache"`
 	Millis  int     `json:"millis"`
-	TTL     int     `json:"event_ttl_s,omitempty"`     // TTL of Event records (seconds): expiry timers fire during the run
-	Lazy    int     `json:"lazy_watchers,omitempty"`   // watchers that never read: the hub has to drop them
-	Prom    bool    `json:"real_prometheus,omitempty"` // the production metrics client on a registry of this run's own
-	Follow  bool    `json:"follower_reads,omitempty"`  // a second node over the same engine serves reads, adopting the first one's revision before each
+	TTL     int     `json:"event_ttl_s,omitempty"`      // TTL of Event records (seconds): expiry timers fire during the run
+	Lazy    int     `json:"lazy_watchers,omitempty"`    // watchers that never read: the hub has to drop them
+	Prom    bool    `json:"real_prometheus,omitempty"`  // the production metrics client on a registry of this run's own
+	Skips   bool    `json:"skipped_prefixes,omitempty"` // the node is configured with prefixes that compaction leaves alone
+	Follow  bool    `json:"follower_reads,omitempty"`   // a second node over the same engine serves reads, adopting the first one's revision before each
 }
 
 func genRace(r *rt.Rand, idx int) raceScenario {
@@ -95,6 +96,7 @@ func genRace(r *rt.Rand, idx int) raceScenario {
 	}
 	// (one run per worker process: no goroutine of an earlier run is alive when the registry is replaced)
 	sc.Prom = idx%2 == 0
+	sc.Skips = idx%3 == 1
 	if idx%6 == 2 {
 		sc.Engine, sc.Follow = "memkv", true
 	}
@@ -126,7 +128,11 @@ func runRace(sc raceScenario) (ops int64) {
 	defer func() {
 		fmt.Fprintf(os.Stderr, "\nRACE-RUN-INFO slow watchers dropped: %.0f, watchers added: %.0f\n", rm.Counter("drop.slow.watcher"), rm.Counter("watcher_hub.add_watcher"))
 	}()
-	b := backend.NewBackend(kv, backend.Config{Prefix: prefix, Identity: "race", WatchCacheSize: sc.Cache, EnableEtcdCompatibility: true}, rm)
+	cfg := backend.Config{Prefix: prefix, Identity: "race", WatchCacheSize: sc.Cache, EnableEtcdCompatibility: true}
+	if sc.Skips {
+		cfg.SkippedPrefixes = []string{prefix + "/skip", prefix + "/g1", "/zzz"}
+	}
+	b := backend.NewBackend(kv, cfg, rm)
 	b.SetCurrentRevision(1000)
 	lead := b
 	var follower backend.Backend
